@@ -9,7 +9,7 @@ EXTENDS Store, XGen
 CONSTANT Family   \* "none" | "C11" | "C12n" | "C12l"
 
 \* pools for the names configurations (C11, C12n)
-N_ElemNames == {Nm(<<>>, <<"a">>), Nm(U1, <<"a">>), Nm(U2, <<"b">>)}
+N_ElemNames == {Nm(<<>>, <<"a">>), Nm(U1, <<"a">>), Nm(U2, <<"b">>), Nm(U1, <<"a","t","t","r","i","b","u","t","e">>), Nm(U2, <<"n","o","d","e">>)}
 N_AttrNames == {Nm(<<>>, <<"x">>), Nm(U1, <<"x">>)}
 N_AttrValues == {<<"1">>}
 N_NsDecls == {[lo |-> <<"d">>, v |-> U1]}      \* the DOCUMENT's prefix: never visible to the query
@@ -30,7 +30,9 @@ Seq2Set(s) == {s[i] : i \in 1..Len(s)}
 (* C11                                                                     *)
 (***************************************************************************)
 \* binding environments: every map from a subset of {p, q} to {U1, U2} (aliases, rebinding, unbound)
-NsMaps == << <<>>, [p |-> U1], [p |-> U2], [q |-> U1], [p |-> U1, q |-> U1], [p |-> U1, q |-> U2], [p |-> U2, q |-> U1] >>
+\* (the last maps bind prefixes that spell axis names / node types: 'descendant:attribute' is an ordinary QName)
+NsMaps == << <<>>, [p |-> U1], [p |-> U2], [q |-> U1], [p |-> U1, q |-> U1], [p |-> U1, q |-> U2], [p |-> U2, q |-> U1],
+             [p |-> U1, descendant |-> U1, attribute |-> U2, text |-> U2], [p |-> U2, descendant |-> U2, self |-> U1] >>
 VarsOf(ns) == << [sp |-> <<>>, lo |-> <<"v">>, val |-> StrV(<<"a">>)],
                  [sp |-> U1, lo |-> <<"v">>, val |-> NumV(NInt(2))],
                  [sp |-> U2, lo |-> <<"v">>, val |-> BoolV(TRUE)],
@@ -47,6 +49,9 @@ AllAttr(t) == Abs(<<DoS, Step("attribute", t)>>)
 PoolC11 == << All(T_name("p", <<"a">>)), All(T_name("q", <<"a">>)), All(T_name("", <<"a">>)), All(T_nsany("p")), All(T_nsany("q")),
               All(T_localany(<<"a">>)), All(T_name("q", <<"b">>)), AllAttr(T_name("p", <<"x">>)), AllAttr(T_name("", <<"x">>)), AllAttr(T_nsany("q")),
               All(T_name("d", <<"a">>)),                                              \* the document's own prefix is NOT bound in the query
+              All(T_name("descendant", <<"a">>)), All(T_name("descendant", <<"a","t","t","r","i","b","u","t","e">>)), All(T_name("text", <<"n","o","d","e">>)),
+              All(T_name("self", <<"c","h","i","l","d">>)), All(T_nsany("descendant")), AllAttr(T_name("descendant", <<"s","e","l","f">>)),
+              All(T_name("p", <<"s","e","l","f">>)), All(T_name("attribute", <<"a">>)),
               Var("", <<"v">>), Var("p", <<"v">>), Var("q", <<"v">>), Var("", <<"n">>), Var("", <<"u">>), Var("p", <<"u">>),
               Filter(Var("", <<"n">>), <<>>, <<Step("child", T_nsany("p"))>>),
               CallP("p", <<"f">>, <<IntE(1), Lit(<<"a">>)>>), CallP("q", <<"f">>, <<IntE(1), Lit(<<"a">>)>>),
